@@ -177,6 +177,23 @@ func (ck *checker) routes(e *jpref.Eq, elem any, class string, cs map[string]any
 	run("Filter in First", func() bool { _, found := x.FirstFound([]any{elem}); return found })
 	run("Filter in Locate", func() bool { return len(x.Locate([]any{elem}, 0)) == 1 })
 	run("Filter in Get(object member)", func() bool { return len(x.Get(map[string]any{"m": elem})) == 1 })
+	c.Cover("route:eval-walk-modify")
+	run("Script.Eval", func() bool { out, _ := script.Eval([]any{}, []any{elem}).([]any); return len(out) == 1 })
+	run("Filter in Walk", func() bool {
+		n := 0
+		x.Walk([]any{elem}, func(jp.Expr, []any) { n++ })
+		return n == 1
+	})
+	run("Filter in Modify", func() bool {
+		n := 0
+		_, _ = x.Modify([]any{elem}, func(e any) (any, bool) { n++; return e, false })
+		return n == 1
+	})
+	run("Filter in Remove", func() bool {
+		out, _ := x.Remove([]any{elem})
+		l, _ := out.([]any)
+		return len(l) == 0
+	})
 	return res, ok
 }
 
